@@ -118,8 +118,9 @@ def run_C13(ctx):
     st = ctx.vh("scan-replay", r.out, "selftest")
     ctx.selftest(st["n_mismatch"] == st["cases"], "C13 G: every corrupted expectation is reported")
     # the same exploration from directive starts reached through a prefix that leaves other entries on the scanner's stacks
-    for cx in (("tag", "explicit", "closedCR", "respBodyCR") if ctx.quick else
-               ("respBody", "reqBody", "tag", "method", "typeBody", "explicit", "closed", "closedCR", "methodCR", "respBodyCR", "explicitCR")):
+    for cx in (("tag", "explicit", "closedCR", "respBodyCR", "typeAnyFirst") if ctx.quick else
+               ("respBody", "reqBody", "tag", "method", "typeBody", "explicit", "closed", "closedCR", "methodCR", "respBodyCR", "explicitCR",
+                "typeAnyFirst", "typeEmptyLast")):
         rx = ctx.tlc("MC_C13", cfg="MC_C13_%s.cfg" % cx, timeout=900, label="MC_C13(%s)" % cx)
         resx = ctx.vh("scan-replay", rx.out, env={"VH_DISTINCT": "len"})
         ctx.absorb(resx, "G:scan-replay(keywords, context %s)" % cx)
@@ -207,6 +208,14 @@ def _include_graphs(ctx, tag):
     cfg = "MC_C07_quick.cfg" if ctx.quick else "MC_C07_thorough.cfg"
     r = ctx.tlc("MC_C07", cfg=cfg, timeout=3000)
     res = ctx.vh_isolated("c07-replay", r.out, chunk=20000, timeout=900, sig_prefix="c07")
+    # files that consist of INCLUDE directives only: several chains of one depth (4 files, small menu)
+    ra = ctx.tlc("MC_C07", cfg="MC_C07_aggr.cfg", timeout=3000, label="MC_C07(aggregators)")
+    resa = ctx.vh_isolated("c07-replay", ra.out, chunk=20000, timeout=900, sig_prefix="c07")
+    for k in ("cases", "nontrivial", "n_mismatch", "drift"):
+        res[k] = (res.get(k) or 0) + (resa.get(k) or 0)
+    res["mismatches"] = (res.get("mismatches") or []) + (resa.get("mismatches") or [])
+    for k, v in (resa.get("counters") or {}).items():
+        res["counters"][k] = res["counters"].get(k, 0) + v
     return r, res
 
 
@@ -558,7 +567,23 @@ def run_C18(ctx):
         os.makedirs(os.path.dirname(tp))
         logp = os.path.join(ctx.scratch, "race-%d" % i)
         res = ctx.vh("conc-stress", src, ctx.seed + i, rounds, 12, tp, binary=race,
-                     env={"GORACE": "halt_on_error=0 log_path=" + logp}, timeout=3000)
+                     env={"GORACE": "halt_on_error=0 log_path=" + logp}, timeout=3000, allow_fail=True)
+        if res.get("error"):
+            # the runtime ends the whole process on an unsynchronised map access ("fatal error: concurrent map writes"):
+            # every independent build dies with it - a verdict, not a failure of the driver
+            err = res.get("stderr") or ""
+            m = re.search(r"^fatal error: (concurrent map[^\n]*|all goroutines are asleep[^\n]*|sync: [^\n]*)", err, re.M)
+            if not m:
+                raise MachineryError("harness conc-stress: %s (rc=%s)\n%s" % (res["error"], res.get("rc"), err[-3000:]))
+            site = re.search(r"github\.com/jsightapi/(jsight-[a-z-]+)(?:@[^/]+)?/([\w./-]+(?:\(\*?\w+\))?[\w.]*)\(", err)
+            ctx.violation("c18:process-died:" + m.group(1)[:60] + ((":" + site.group(2)) if site else ""),
+                          "concurrent independent builds kill the process: fatal error: " + m.group(1),
+                          {"kind": "c18-race", "source": src, "seed": ctx.seed + i, "frames": m.group(1)})
+            for key in _race_reports(logp):
+                ctx.violation("c18:data-race:" + key, "the race detector reports a data race: " + key, {"kind": "c18-race", "source": src, "seed": ctx.seed + i, "frames": key})
+            ctx.cov["samples"].append({"step": "V:conc-stress(%s)" % src.split(":")[0], "case": {"process_died": m.group(1)}})
+            ctx.cov["evaluations"] += 1
+            continue
         ctx.absorb(res, "V:conc-stress(%s)" % src.split(":")[0])
         for key in _race_reports(logp):
             ctx.violation("c18:data-race:" + key, "the race detector reports a data race: " + key, {"kind": "c18-race", "source": src, "seed": ctx.seed + i, "frames": key})
